@@ -21,4 +21,31 @@ Theorem C14_ok_means_all_parsed : forall parse fuel cs rest chunk acc n l,
   exists k, List.length l = (n + k)%nat.
 Proof. exact reader_ok_counts. Qed.
 
+(* chunk invariance: for EVERY chunk size, a file whose start codes sit exactly at its entry
+   boundaries is read back as the parse of every entry, in order - no entry lost, duplicated or
+   split at a chunk boundary - provided the first read reaches the second start code or covers the
+   whole file (always true of a 100 000 byte chunk and RPU-sized entries) *)
+Theorem C14_chunk_invariance : forall parse cs es rpus,
+  well_delimited es -> Forall (fun e => (4 <= List.length e)%nat) es -> (4 <= cs)%nat -> es <> [] ->
+  (List.length (hd [] es) + 4 <= cs \/ total es < cs)%nat ->
+  map_ok parse es = Some rpus ->
+  parse_rpu_file parse cs (concat es) = Ok rpus.
+Proof. exact reader_chunk_invariance. Qed.
+
+(* what write_rpu_file writes is such a concatenation of entries *)
+Theorem C14_written_file_is_entries : forall nals,
+  write_rpu_file nals = concat (map (fun nal => SC ++ skipn 2 nal) nals).
+Proof. exact write_rpu_file_entries. Qed.
+
+(* the side condition is decidable for a concrete file, and satisfiable *)
+Theorem C14_well_delimited_decidable : forall es,
+  Forall (fun e => (4 <= List.length e)%nat) es -> wd_check es = true -> well_delimited es.
+Proof. exact wd_check_sound. Qed.
+
+Theorem C14_example_read_back : forall (x : rpu) (cs : nat),
+  (12 <= cs)%nat -> parse_rpu_file (fun _ => Ok x) cs (concat ex_entries) = Ok [x; x; x].
+Proof. exact ex_entries_read_back. Qed.
+
 Print Assumptions C14_ok_means_all_parsed.
+Print Assumptions C14_chunk_invariance.
+Print Assumptions C14_example_read_back.
